@@ -221,13 +221,19 @@ func vh_C07_L3_skip_covers_several_partial_messages() {
 		r.push(m.chunks[vPick(2)]) // only one of its two fragments arrived
 	}
 	after := vMakeMsg(3, iData, false, next16+uint16(k), next32+uint32(k), base+uint32(2*k), 1, PayloadTypeWebRTCString)
-	r.push(after.chunks[0])
+	afterLate := vPick(2) == 1 // the following message arrives before the skip, or after it (and before anything is read)
+	if !afterLate {
+		r.push(after.chunks[0])
+	}
 	if iData {
 		r.forwardTSNForOrderedMID(next32 + uint32(k) - 1)
 		vassert(r.nextMID == next32+uint32(k), "the cursor moves right behind the last skipped message")
 	} else {
 		r.forwardTSNForOrdered(next16 + uint16(k) - 1)
 		vassert(r.nextSSN == next16+uint16(k), "the cursor moves right behind the last skipped message")
+	}
+	if afterLate {
+		r.push(after.chunks[0])
 	}
 	want := 1
 	if complete != nil {
@@ -371,3 +377,56 @@ func vh_C07_L3_partly_received_follower_survives_skip() {
 // C07.L5: the receiver's cumulative jump clears exactly the skipped range of its TSN bitmap,
 // so nothing received behind it is forgotten and nothing skipped stays marked (= C05.S1).
 func vh_C07_L5_skip_clears_exactly_its_range() { vh_C05_step_clear_range() }
+
+// C07.L6: a message given up on while only part of it fits the congestion window does not
+// wedge the sender. A six-fragment message with retransmission limit 0..1 on stream 1, a
+// reliable message on stream 2 written right after it, a congestion window of four fragments;
+// the first 4..6 data packets are lost, then the network heals (timers expire whenever
+// nothing moves). In the end the reliable message is delivered, the sender's flight and
+// pending queue are empty (the given-up fragments were either retransmitted or skipped,
+// never left in limbo), and the peer was told to skip whatever was abandoned.
+func vh_C07_L6_given_up_message_larger_than_cwnd_does_not_wedge_the_sender() {
+	il := vPick(2) == 1
+	a, b := vPair(vAssocOpts{interleaving: il, mtu: 36, pickTSN: true})
+	a.useForwardTSN, a.useIForwardTSN = !il, il
+	b.useForwardTSN, b.useIForwardTSN = !il, il
+	s1, err := a.OpenStream(1, PayloadTypeWebRTCBinary)
+	vassert(err == nil, "open stream")
+	s1.SetReliabilityParams(vPick(2) == 1, ReliabilityTypeRexmit, uint32(vPick(2)))
+	s2, err2 := a.OpenStream(2, PayloadTypeWebRTCBinary)
+	vassert(err2 == nil, "open stream")
+	maxp := int(a.maxPayloadSize)
+	// six fragments; four fit the congestion window, and four are also all that fits the
+	// one-MTU window that a T3 expiry leaves (so nothing new can be sent while they occupy it)
+	_, w1 := s1.WriteSCTP(make([]byte, 5*maxp+1), PayloadTypeWebRTCBinary)
+	later := nondetBytes(1)
+	_, w2 := s2.WriteSCTP(later, PayloadTypeWebRTCString)
+	vassert(w1 == nil && w2 == nil, "writes accepted")
+	a.cwnd = uint32(4 * maxp)
+	net := &vNet{a: a, b: b, dropAt: -1, dupAt: -1, drops: map[int]bool{}}
+	lost := 4 + vPick(3)
+	for i := 0; i < lost; i++ {
+		net.drops[i] = true // packets from a are the only ones until something arrives at b
+	}
+	net.settle(60, 12)
+	vassert(a.inflightQueue.size() == 0 && a.pendingQueue.size() == 0, "the sender is drained: nothing given up on stays in limbo")
+	bs2 := b.streams[2]
+	vassert(bs2 != nil, "the receiver has the reliable stream")
+	if bs2 != nil {
+		got, _ := vReadAll(bs2, make([]byte, 8))
+		vassert(len(got) == 1 && vBytesEq(got[0], later), "the reliable message behind the given-up one is delivered")
+	}
+	vassert(s1.BufferedAmount() == 0 && s2.BufferedAmount() == 0, "buffered amounts return to zero")
+	if bs1 := b.streams[1]; bs1 != nil {
+		got, _ := vReadAll(bs1, make([]byte, 64))
+		vassert(len(got) <= 1, "the given-up message is delivered at most once (whole, if its retransmissions got through after all)")
+	}
+	vassert(b.getMyReceiverWindowCredit() == b.maxReceiveBufferSize, "once everything readable is read the receiver holds nothing: no fragment of a given-up message stays behind")
+	vcover("end")
+}
+
+// C07.L7: one FORWARD-TSN that skips an ordered and an unordered message of the same stream
+// purges both (= C11.L2c); nothing of an abandoned message stays held.
+func vh_C07_L7_skip_purges_ordered_and_unordered_of_one_stream() {
+	vh_C11_L2_skip_purges_ordered_and_unordered_of_one_stream()
+}
